@@ -570,12 +570,28 @@ func (e *SpecEnv) call(n SCall) *Val {
 			sfail("fieldRow(slice, \"Field\")")
 		}
 		et := sliceElem(v.Typ)
-		path, ok := fieldPath(et, s.S, 0)
+		fname, sub := s.S, ""
+		for _, sfx := range []string{".arr", ".off", ".len"} {
+			// a slice-typed field has three columns: fieldRow(list, "Field.arr" / ".off" / ".len")
+			if strings.HasSuffix(fname, sfx) {
+				fname, sub = strings.TrimSuffix(fname, sfx), sfx
+			}
+		}
+		path, ok := fieldPath(et, fname, 0)
 		if !ok {
 			sfail("fieldRow: %s has no field %s", typeString(et), s.S)
 		}
 		prefix, ft := pathPrefix(et, path)
 		fl := flatten(ft)
+		if sub != "" {
+			var pick []Leaf
+			for _, l := range fl {
+				if l.Path == sub {
+					pick = append(pick, l)
+				}
+			}
+			fl = pick
+		}
 		if len(fl) != 1 {
 			sfail("fieldRow: field %s is not a scalar", s.S)
 		}
@@ -638,6 +654,45 @@ func (e *SpecEnv) call(n SCall) *Val {
 		}
 		_, h := e.st.heapArr(t, Leaf{prefix + fl[0].Path, fl[0].Sort, fl[0].Ref}, false)
 		return &Val{K: VArr, T: h}
+	case "lookup":
+		// lookup(m, k): what the Go expression m[k] yields (the zero value when the key is absent or the map is nil)
+		m := e.eval(n.Args[0])
+		if m.K != VMap {
+			sfail("lookup(map, key)")
+		}
+		_, has, ok := e.x.mapArrays(e.st, m.Typ)
+		if !ok {
+			sfail("lookup: unsupported key type")
+		}
+		kt := scalar(e.eval(n.Args[1]))
+		present := And(Neq(m.T, Num(0)), Select(Select(has, m.T), kt))
+		_, et := mapTypes(m.Typ)
+		var ls []*Term
+		for _, l := range flatten(et) {
+			_, arr := e.x.mapValArr(e.st, m.Typ, l)
+			ls = append(ls, Ite(present, Select(Select(arr, m.T), kt), zeroLeaf(l)))
+		}
+		return mkVal(et, &ls)
+	case "keysOf", "valsOf":
+		// keysOf(m): the key set of a Go map as a spec array key -> bool; valsOf(m): its values key -> value (scalar values)
+		m := e.eval(n.Args[0])
+		if m.K != VMap {
+			sfail("%s(map)", id.Name)
+		}
+		_, has, ok := e.x.mapArrays(e.st, m.Typ)
+		if !ok {
+			sfail("%s: unsupported key type", id.Name)
+		}
+		if id.Name == "keysOf" {
+			return &Val{K: VArr, T: Select(has, m.T)}
+		}
+		_, et := mapTypes(m.Typ)
+		fl := flatten(et)
+		if len(fl) != 1 {
+			sfail("valsOf: the map's values are not scalars")
+		}
+		_, arr := e.x.mapValArr(e.st, m.Typ, fl[0])
+		return &Val{K: VArr, T: Select(arr, m.T)}
 	case "hasKey":
 		// hasKey(m, k): the Go map m has an entry for key k
 		m := e.eval(n.Args[0])
